@@ -12,6 +12,7 @@ import (
 	"github.com/nalgeon/redka"
 	"github.com/nalgeon/redka/internal/core"
 	"github.com/nalgeon/redka/internal/redis"
+	"github.com/nalgeon/redka/internal/rstring"
 	"github.com/nalgeon/redka/internal/rzset"
 )
 
@@ -29,6 +30,10 @@ type step struct {
 	family string
 	ttl    int64
 	run    func(e *env, tm func(int64) int64) string
+	// prep, when set, is called by the api / script modes a few milliseconds BEFORE the timed call:
+	// it builds the command object (options set, not yet run), so that anything the builder computes
+	// from the clock too early (a deadline frozen when the option is set) lies outside the call window
+	prep func(e *env)
 }
 
 func errName(err error) string {
@@ -265,8 +270,41 @@ func opStrSetWith(k, v string, o setOpts) step {
 	if ttl < 0 {
 		ttl = 0
 	}
-	return step{text: text, family: "str", ttl: ttl, run: func(e *env, _ func(int64) int64) string {
+	var prepared *rstring.SetCmd
+	build := func(e *env) rstring.SetCmd {
 		c := e.r.Str().SetWith(k, []byte(v))
+		return buildSetWith(c, v, o)
+	}
+	return step{text: text, family: "str", ttl: ttl, prep: func(e *env) {
+		c := build(e)
+		prepared = &c
+	}, run: func(e *env, _ func(int64) int64) string {
+		var c rstring.SetCmd
+		if prepared != nil {
+			c, prepared = *prepared, nil
+		} else {
+			c = build(e)
+		}
+		out, err := c.Run()
+		if err != nil {
+			return rErr(err)
+		}
+		prev := "nil"
+		if out.Prev != nil {
+			prev = "b:" + hx(out.Prev)
+		}
+		tf := func(b bool) string {
+			if b {
+				return "T"
+			}
+			return "F"
+		}
+		return fmt.Sprintf("ok L 3 %s %s %s", prev, tf(out.Created), tf(out.Updated))
+	}}
+}
+
+func buildSetWith(c rstring.SetCmd, v string, o setOpts) rstring.SetCmd {
+	{
 		// at most one of ttl / at / keepTTL and one of ifExists / ifNotExists is set by the generator.
 		// The builder methods commute; which group is applied first is derived from the value bytes so that
 		// both orders are exercised and a replay repeats the same order.
@@ -300,22 +338,8 @@ func opStrSetWith(k, v string, o setOpts) step {
 				c = c.IfNotExists()
 			}
 		}
-		out, err := c.Run()
-		if err != nil {
-			return rErr(err)
-		}
-		prev := "nil"
-		if out.Prev != nil {
-			prev = "b:" + hx(out.Prev)
-		}
-		tf := func(b bool) string {
-			if b {
-				return "T"
-			}
-			return "F"
-		}
-		return fmt.Sprintf("ok L 3 %s %s %s", prev, tf(out.Created), tf(out.Updated))
-	}}
+		return c
+	}
 }
 
 // ---------------------------------------------------------------- keys
